@@ -399,7 +399,65 @@ def shard(seed, n_examples):
     return stats
 
 
+def deep_case(case):
+    """Argument or result structures nested very deeply (hundreds of levels, or a few dozen with little stack left): the call
+    either is refused with RecursionError or exposes exactly its arguments and results - each once. Returns message or None."""
+    import sys
+    ns = env.reset(ir.resolve_p(case["p"]), 16, R)
+    rt, rec = ns.rt, ns.rec
+    depth, where, headroom = case["depth"], case["where"], case.get("headroom")
+
+    def nest(x, d):
+        for _ in range(d):
+            x = [x]
+        return x
+
+    def unnest(x):
+        while isinstance(x, list):
+            x = x[0]
+        return x
+    if where == "arg":
+        args = (2, nest(4, depth))
+        fn = lambda a, b: a * unnest(b) + 1
+        want = [2, 4, 9]
+    else:
+        args = (3, 5)
+        fn = lambda a, b: [a + b, nest(a * b, depth)]
+        want = [3, 5, 8, 15]
+    n0 = len(rec.vals)
+    old = sys.getrecursionlimit()
+    try:
+        if headroom:
+            import inspect
+            sys.setrecursionlimit(len(inspect.stack()) + headroom)
+        try:
+            rt.snark(fn)(*args)
+        except RecursionError:
+            return None
+    finally:
+        sys.setrecursionlimit(old)
+    got = [int(rec.vals[i]) for i in range(n0, len(rec.vals)) if rec.kinds[i] == "pub"]
+    if got != want:
+        return "a call with a %s nested %d levels deep%s created the public values %r, expected %r (each argument and result once)" % (
+            "second argument" if where == "arg" else "result", depth, " (%d frames of stack left)" % headroom if headroom else "", got, want)
+    if r1cs.evaluate(rec.snapshot()):
+        return "constraint violated by the recorded witness"
+    return None
+
+
+def deep_shard(cases):
+    stats = core.Stats()
+    for case in cases:
+        msg = deep_case(case)
+        stats.case(case, True, ("deep-structure:" + case["where"],))
+        if msg:
+            stats.violations.append({"case": case, "msg": msg, "key": "deep"})
+    return stats
+
+
 def replay(case):
+    if case.get("part") == "deep":
+        return deep_case(case)
     return judge(case)[0]
 
 
@@ -410,3 +468,6 @@ def run(ctx):
     n = 200 if ctx.tier == "quick" else 4000
     ctx.stats = core.run_shards("harness.checks.c17", "shard",
                                 [dict(seed=ctx.seed * 1000 + i, n_examples=n) for i in range(16)])
+    deep = [{"part": "deep", "p": "bn128", "depth": d, "where": w, "headroom": h}
+            for w in ("arg", "result") for d, h in ((10, None), (100, None), (400, None), (600, None), (2000, None), (30, 80), (60, 100), (60, 140), (200, 300))]
+    ctx.stats.merge_json(core.run_shards("harness.checks.c17", "deep_shard", [dict(cases=deep[i::4]) for i in range(4)]).to_json())
